@@ -61,7 +61,10 @@ func getArgumentValues(
 			tmp = argDef.DefaultValue
 		}
 		if !isNullish(tmp) {
-			results[argDef.PrivateName] = tmp
+			// the resolver owns what it is handed: defaults (of the argument and
+			// of input fields) and variable values are not shared with the
+			// schema, with other fields or with later requests
+			results[argDef.PrivateName] = copyArgValue(tmp)
 		}
 	}
 	return results
